@@ -51,6 +51,9 @@ type PScript struct {
 	QAt   int    `json:"qat"`
 	Mode  string `json:"mode"`  // batch | lockstep (bidi: send one, await its answer, ...; the backend echoes)
 	FailK int    `json:"failK"` // lockstep: the backend fails instead of answering message FailK (0 = never)
+	// schedule: the front's connection to the backend delays the first SendMsg of the call until the backend's handler
+	// has returned and its trailers have had time to arrive (Proxy.tla FSendFirst with bpc = "done")
+	SlowOpen bool `json:"slowopen"`
 }
 
 type PView struct {
@@ -83,7 +86,17 @@ type pbackend struct {
 	srv *grpc.Server
 	lis *bufconn.Listener
 	mu  sync.Mutex
-	rec map[string]*PView // per call id
+	rec map[string]*PView        // per call id
+	ret map[string]chan struct{} // per call id: closed when the stream handler has returned
+}
+
+func (b *pbackend) retCh(id string) chan struct{} {
+	b.mu.Lock()
+	defer b.mu.Unlock()
+	if b.ret[id] == nil {
+		b.ret[id] = make(chan struct{})
+	}
+	return b.ret[id]
 }
 
 func proxyService() ServiceSpec {
@@ -133,7 +146,7 @@ func newPBackend() (*pbackend, error) {
 	if err != nil {
 		return nil, err
 	}
-	b := &pbackend{lis: bufconn.Listen(1 << 20), rec: map[string]*PView{}}
+	b := &pbackend{lis: bufconn.Listen(1 << 20), rec: map[string]*PView{}, ret: map[string]chan struct{}{}}
 	b.srv = grpc.NewServer()
 	view := func(ctx context.Context) (*PView, PScript) {
 		md, _ := metadata.FromIncomingContext(ctx)
@@ -180,6 +193,11 @@ func newPBackend() (*pbackend, error) {
 	}
 	st := func(full string, md protoreflect.MethodDescriptor, ss grpc.ServerStream) error {
 		pv, s := view(ss.Context())
+		if s.SlowOpen {
+			if imd, _ := metadata.FromIncomingContext(ss.Context()); len(imd.Get("x-call")) > 0 {
+				defer close(b.retCh(imd.Get("x-call")[0]))
+			}
+		}
 		if s.Mode == "lockstep" {
 			for k := 1; ; k++ {
 				m := dynamicpb.NewMessage(reqDesc())
@@ -242,10 +260,45 @@ func newPBackend() (*pbackend, error) {
 	return b, nil
 }
 
-func (b *pbackend) dial() (*grpc.ClientConn, error) {
-	return grpc.NewClient("passthrough:///pbackend",
+func (b *pbackend) dial(opts ...grpc.DialOption) (*grpc.ClientConn, error) {
+	return grpc.NewClient("passthrough:///pbackend", append(opts,
 		grpc.WithContextDialer(func(ctx context.Context, _ string) (net.Conn, error) { return b.lis.DialContext(ctx) }),
-		grpc.WithTransportCredentials(insecure.NewCredentials()))
+		grpc.WithTransportCredentials(insecure.NewCredentials()))...)
+}
+
+// slowOpen is a client interceptor for the connection larking forwards on: a call whose script says slowopen has its
+// first SendMsg held back until the backend has ended the stream (a slow link between the proxy and the backend).
+func (b *pbackend) slowOpen(ctx context.Context, desc *grpc.StreamDesc, cc *grpc.ClientConn, method string, streamer grpc.Streamer, opts ...grpc.CallOption) (grpc.ClientStream, error) {
+	cs, err := streamer(ctx, desc, cc, method, opts...)
+	if err != nil {
+		return cs, err
+	}
+	md, _ := metadata.FromOutgoingContext(ctx)
+	var s PScript
+	if v := md.Get("x-script"); len(v) > 0 {
+		json.Unmarshal([]byte(v[0]), &s)
+	}
+	if !s.SlowOpen || len(md.Get("x-call")) == 0 {
+		return cs, nil
+	}
+	return &slowStream{ClientStream: cs, ret: b.retCh(md.Get("x-call")[0])}, nil
+}
+
+type slowStream struct {
+	grpc.ClientStream
+	ret  chan struct{}
+	once sync.Once
+}
+
+func (s *slowStream) SendMsg(m interface{}) error {
+	s.once.Do(func() {
+		select {
+		case <-s.ret:
+			time.Sleep(30 * time.Millisecond) // the trailers travel
+		case <-time.After(500 * time.Millisecond):
+		}
+	})
+	return s.ClientStream.SendMsg(m)
 }
 
 // runCall performs the client side of the script on cc.
@@ -343,7 +396,7 @@ func newProxyWorld() (*proxyWorld, error) {
 	if w.direct, err = b.dial(); err != nil {
 		return nil, err
 	}
-	if w.regCC, err = b.dial(); err != nil {
+	if w.regCC, err = b.dial(grpc.WithStreamInterceptor(b.slowOpen)); err != nil {
 		return nil, err
 	}
 	// interceptors that do what interceptors usually do: look at the call and pass a wrapping stream on
